@@ -8,6 +8,7 @@ import numpy.typing
 import numpoly
 
 from ..baseclass import ndpoly, PolyLike
+from ..construct.from_attributes import NATIVE_DTYPES
 from ..dispatch import implements
 
 
@@ -78,32 +79,32 @@ def multiply(
         else out
     )
 
-    #    seen = set()
-    #    for expon1, coeff1 in zip(x1.exponents, x1.coefficients):
-    #        for expon2, coeff2 in zip(x2.exponents, x2.coefficients):
-    #            key = (expon1 + expon2 + x1.KEY_OFFSET).ravel()
-    #            key = key.view(f"U{len(expon1)}").item()
-    #            if key in seen:
-    #                out_.values[key] += numpy.multiply(
-    #                    coeff1, coeff2, where=where, **kwargs
-    #                )
-    #            else:
-    #                numpy.multiply(
-    #                    coeff1, coeff2, out=out_.values[key], where=where, **kwargs
-    #                )
-    #            seen.add(key)
-    #
-    #    if out is None:
-    #        out_ = numpoly.clean_attributes(out_)
-
-    numpoly.cmultiply(
-        x1.exponents,
-        x2.exponents,
-        x1.coefficients,
-        x2.coefficients,
-        x1.KEY_OFFSET,
-        out_.values.ravel(),
+    native = (
+        out_.dtype in NATIVE_DTYPES
+        and int(numpy.max(exponents, initial=0)) + x1.KEY_OFFSET < 128
     )
+    if native:
+        # cmultiply writes raw bytes chosen by the dtype of each coefficient
+        # product, and builds its keys with a single-byte formatter.
+        numpoly.cmultiply(
+            x1.exponents,
+            x2.exponents,
+            [coeff.astype(out_.dtype, copy=False) for coeff in x1.coefficients],
+            [coeff.astype(out_.dtype, copy=False) for coeff in x2.coefficients],
+            x1.KEY_OFFSET,
+            out_.values.ravel(),
+        )
+    else:
+        seen = set()
+        for expon1, coeff1 in zip(x1.exponents, x1.coefficients):
+            for expon2, coeff2 in zip(x2.exponents, x2.coefficients):
+                key = (expon1 + expon2 + x1.KEY_OFFSET).ravel()
+                key = key.view(f"U{len(expon1)}").item()
+                if key in seen:
+                    out_.values[key] += numpy.multiply(coeff1, coeff2)
+                else:
+                    out_.values[key] = numpy.multiply(coeff1, coeff2)
+                seen.add(key)
     if out is None:
         out_ = numpoly.clean_attributes(out_)
 
